@@ -639,7 +639,7 @@ OPS['query_rollback_status'].sigfield = lambda tok, exp, obs: None if (obs[:3] i
 # as the key of find_component_id_by_descriptor.  Descriptions / descriptors come from a pool shared with the
 # driver's state generator (`descrPool` of Drivers/C07.lean) plus random printable text with backslashes.
 DESCR_POOL = [b'IPMC', b'fw\\update', b'A\\u0042C', b'ABC', b'\\U00000041', b'\\\\u0041', b'boot\\', b'\\u0000a',
-              b'\\x41', b'\\ud800', b'\\U00110000', b'FPGA #1']
+              b'\\x41', b'\\ud800', b'\\U00110000', b'FPGA #1', b'Twelve chars']
 g_comp = _pool([0, 1, 2, 3, 4, 5, 6, 7], 256)
 
 
